@@ -17,7 +17,7 @@ use crate::{
         LWEEncryptSkDefault, LWESwitchingKeyEncryptDefault, LWEToGLWESwitchingKeyEncryptSkDefault,
     },
     layouts::{
-        GGLWECompressedSeedMut, GGLWECompressedToMut, GGLWEInfos, GGLWEToGGSWKeyCompressedToMut, GGLWEToGGSWKeyToMut, GGLWEToMut,
+        GGLWECompressedSeedMut, GGLWECompressedToMut, GGLWEInfos, GGLWEToGGSWKeyCompressedSeedMut, GGLWEToGGSWKeyCompressedToMut, GGLWEToGGSWKeyToMut, GGLWEToMut,
         GGSWCompressedSeedMut, GGSWCompressedToMut, GGSWInfos, GGSWToMut, GLWECompressedSeedMut, GLWECompressedToMut, GLWEInfos,
         GLWEPlaintextToRef, GLWEPreparedToRef, GLWESecretPreparedToRef, GLWESecretToRef, GLWESwitchingKeyDegreesMut, GLWEToMut,
         LWEInfos, LWEPlaintextToRef, LWESecretToRef, LWEToMut, SetGaloisElement,
@@ -366,7 +366,7 @@ pub trait CoreEncryptionDefaults<BE: Backend>: Backend {
         source_xe: &mut Source,
         scratch: &mut Scratch<BE>,
     ) where
-        R: GGLWEToGGSWKeyCompressedToMut + GGLWEInfos,
+        R: GGLWEToGGSWKeyCompressedToMut + GGLWEToGGSWKeyCompressedSeedMut + GGLWEInfos,
         E: EncryptionInfos,
         S: GLWESecretToRef + GetDistribution + GLWEInfos;
 
@@ -921,7 +921,7 @@ where
         source_xe: &mut Source,
         scratch: &mut Scratch<BE>,
     ) where
-        R: GGLWEToGGSWKeyCompressedToMut + GGLWEInfos,
+        R: GGLWEToGGSWKeyCompressedToMut + GGLWEToGGSWKeyCompressedSeedMut + GGLWEInfos,
         E: EncryptionInfos,
         S: GLWESecretToRef + GetDistribution + GLWEInfos,
     {
@@ -1504,7 +1504,7 @@ macro_rules! impl_core_encryption_default_methods {
             source_xe: &mut poulpy_hal::source::Source,
             scratch: &mut poulpy_hal::layouts::Scratch<$be>,
         ) where
-            R: $crate::layouts::GGLWEToGGSWKeyCompressedToMut + $crate::layouts::GGLWEInfos,
+            R: $crate::layouts::GGLWEToGGSWKeyCompressedToMut + $crate::layouts::GGLWEToGGSWKeyCompressedSeedMut + $crate::layouts::GGLWEInfos,
             E: $crate::EncryptionInfos,
             S: $crate::layouts::GLWESecretToRef + $crate::GetDistribution + $crate::layouts::GLWEInfos,
         {
